@@ -58,7 +58,7 @@ type Vol struct {
 
 type URR struct {
 	Lost   bool   `json:"lost,omitempty"` // remove: the data plane has lost the rule before (its removal fails with ENOENT)
-	Verb   string `json:"verb"` // create update remove
+	Verb   string `json:"verb"`           // create update remove
 	SEID   uint64 `json:"seid"`
 	ID     uint32 `json:"id"`
 	Method *uint8 `json:"method,omitempty"`
